@@ -4,7 +4,7 @@ from checks.engine_common import run_engine
 META = {
     "property_id": "C14",
     "technique": "Coq proof over a Gallina model of the build engine + history correspondence with fresh-process builds",
-    "level_text": 'Theorems: gc_keeps_live_records, gc_removes_dead, gc_removes_temporaries, gc_confined, builds_read_only_live_records, gc_build_equiv, gc_sim. Correspondence + oracle: record files of existing labels byte-identical after gc, dead records and temporaries gone, nothing outside .dawn/build touched, next build identical to an uncollected twin tree; gc through the index as the CLI does.',
+    "level_text": 'Theorems: gc_keeps_live_records, gc_removes_dead, gc_removes_temporaries, gc_confined, builds_read_only_live_records, gc_build_equiv, gc_sim. Correspondence + oracle: record files of existing labels byte-identical after gc, dead records and temporaries gone, nothing outside .dawn/build touched, next build identical to an uncollected twin tree; gc through the index as the CLI does; scripted: collection while a declared source is absent, with a deleted output, through a symlinked project root, with several collectable items per state directory.',
     "level_note": "Trusted: as C01; record-path injectivity is C12's theorem.",
     "design_ref": "DESIGN.md §6 C14",
 }
